@@ -1952,6 +1952,13 @@ func (tc *typechecker) checkCompositeLiteral(node *ast.CompositeLiteral, typ ref
 		ti = tc.checkArrayType(array, maxIndex+1)
 	} else {
 		ti = tc.checkType(node.Type)
+		// An array literal with an implicit type, as an element of
+		// [][2]int{{1, 2, 3}}, has no type node whose length is checked.
+		if ti.Type.Kind() == reflect.Array {
+			if max := tc.maxIndex(node); max >= ti.Type.Len() {
+				panic(tc.errorf(node, "array index %d out of bounds [0:%d]", max, ti.Type.Len()))
+			}
+		}
 	}
 	// tc.compilation.typeInfos[node.Type] = ti
 
